@@ -40,6 +40,37 @@ static std::vector<Line> parseListing(const std::string &txt) {
   return v;
 }
 
+// Independent reference layout, used ONLY to classify rejections in this native search (is "not word aligned" justified?):
+// least fixed point of grow-only encoding lengths, lengths judged by the ISA prefix rule (n bytes carry 4n operand bits,
+// negative operands need the NFIX byte).  Returns true iff some absolute reference's label is off a word boundary.
+static bool fitsBytes(long v, int n) { if (v >= 0) return n >= 8 || v < (1L << (4 * n)); return n >= 2 && (n >= 8 || v >= -(1L << (4 * n))); }
+static bool referenceHasUnalignedAbsolute(const std::string &source, bool &ok) {
+  ok = false;
+  std::vector<std::unique_ptr<Directive>> prog;
+  try { Lexer lx; Parser ps(lx); lx.loadBuffer(source); prog = ps.parseProgram(); } catch (std::exception &) { return false; }
+  size_t n = prog.size(); std::vector<long> off(n, 0), len(n, 1), lab(n, 0); std::map<std::string, size_t> decl;
+  for (size_t i = 0; i < n; i++) if (isLabelTok(prog[i]->getToken())) decl[dynamic_cast<Label *>(prog[i].get())->getLabel()] = i;
+  for (size_t i = 0; i < n; i++) if (prog[i]->operandIsLabel() && !decl.count(dynamic_cast<InstrLabel *>(prog[i].get())->getLabel())) return false;
+  for (int pass = 0; pass < 10000; pass++) {
+    long o = 0; bool moved = false;
+    for (size_t i = 0; i < n; i++) {
+      Token t = prog[i]->getToken();
+      if (t == Token::DATA) o = (o + 3) & ~3L;
+      off[i] = o;
+      if (isLabelTok(t)) { if (lab[i] != o) moved = true; lab[i] = o; }
+      else if (prog[i]->operandIsLabel()) {
+        auto *r = dynamic_cast<InstrLabel *>(prog[i].get()); long target = lab[decl[r->getLabel()]];
+        if (pass > 0) { if (r->isRelative()) { while (!fitsBytes(target - o - len[i], (int)len[i])) len[i]++; } else { while (!fitsBytes(target >> 2, (int)len[i])) len[i]++; } }
+        o += len[i];
+      } else o += (long)prog[i]->getSize();
+    }
+    if (!moved && pass > 0) { ok = true; break; }
+  }
+  if (!ok) return false;
+  for (size_t i = 0; i < n; i++) if (prog[i]->operandIsLabel()) { auto *r = dynamic_cast<InstrLabel *>(prog[i].get()); if (!r->isRelative() && (lab[decl[r->getLabel()]] & 3)) return true; }
+  return false;
+}
+
 static Verdict validate(const std::string &source) {
   Verdict v{false, true, "", "", 0};
   std::vector<std::unique_ptr<Directive>> program;
@@ -55,7 +86,14 @@ static Verdict validate(const std::string &source) {
     char fn[] = "/var/tmp/hexasm_hdr.XXXXXX"; int fd = mkstemp(fn); close(fd);
     codeGen.emitBin(fn);
     std::ifstream f(fn, std::ios::binary); uint32_t w = 0; f.read(reinterpret_cast<char *>(&w), 4); headerWords = w; f.close(); unlink(fn);
-  } catch (std::exception &e) { v.accepted = false; v.error = e.what(); return v; }
+  } catch (std::exception &e) {
+    v.accepted = false; v.error = e.what();
+    if (v.error.find("not word aligned") != std::string::npos) {
+      bool refOk = false; bool justified = referenceHasUnalignedAbsolute(source, refOk);
+      if (refOk && !justified) { v.ok = false; v.c05 = 1; v.why = "program rejected as 'not word aligned' although every absolutely referenced label is word aligned in the (least fixed point) layout"; }
+    }
+    return v;
+  }
   v.accepted = true;
   auto fail = [&](int cls, const std::string &w) { if (v.ok) { v.ok = false; v.why = w; v.c05 = cls; } };
   // label name -> last declaring directive (std::map semantics of createLabelMap)
@@ -137,6 +175,9 @@ static std::string genProgram(std::mt19937_64 &rng, bool big) {
     else if (kind == 4) { o << "L" << (rng() % nl) << "\nDATA " << (int)(rng() % 1000) - 500 << "\n"; declared++; }
     else if (kind == 5) { o << REL[rng() % 7] << " L" << (rng() % nl) << "\n"; }
     else if (kind == 6) { o << ABS[rng() % 5] << " L" << (rng() % nl) << "\n"; }
+    else if (kind == 7 && rng() % 2) {   // forward absolute reference; the label's alignment depends on how the branch in between grows
+      int l = rng() % nl; o << ABS[rng() % 5] << " L" << l << "\n" << REL[rng() % 3] << " L" << (rng() % nl) << "\n";
+      int g = rng() % 4; for (int i = 0; i < g; i++) o << "LDAC 0\n"; }
     else { o << "LDAC " << (int)(rng() % 100000) - 50000 << "\nOPR ADD\n"; }
   }
   for (int l = 0; l < nl; l++) { if (rng() % 2) o << "DATA 1\n"; o << "L" << l << "\n"; if (rng() % 2) o << "DATA " << l << "\n"; }  // every label declared at least once
@@ -159,7 +200,7 @@ int main(int argc, char **argv) {
       g_current = src; g_done = it; alarm(20);
       Verdict v = validate(src);
       alarm(0);
-      if (!v.accepted) { rejected++; continue; }
+      if (!v.accepted) { rejected++; if (!v.ok) { if (!bad5) { first5 = src; why5 = v.why; } bad5++; } continue; }
       accepted++;
       if (!v.ok) { if (v.c05 == 1) { if (!bad5) { first5 = src; why5 = v.why; } bad5++; } else { if (!bad17) { first17 = src; why17 = v.why; } bad17++; } }
     }
